@@ -85,21 +85,28 @@ static int fast_connect(int k) {
 
 static void pump(void) { vs_pump(scr, ncl, peers, bufs); }
 
-/* bytes peer k received since the last op, FramebufferUpdate messages (Raw rectangles; e.g. the empty
- * update that follows a pointer move) left out */
+/* bytes peer k received since the last op; FramebufferUpdate messages (Raw rectangles; e.g. the empty
+ * update that follows a pointer move, or the answer to a request that was still pending) are left out,
+ * resize messages are printed, anything else is printed from there on */
 static void print_new_bytes(int k) {
   vs_buf *b = &bufs[k]; size_t i;
   while (b->rd < b->n) {
-    if (b->p[b->rd] == 0 && b->n - b->rd >= 4) {
+    unsigned t = b->p[b->rd];
+    if (t == 0 && b->n - b->rd >= 4) {
       unsigned nr = vs_get16(b->p + b->rd + 2), r; size_t o = b->rd + 4; int ok = 1;
       for (r = 0; r < nr && ok; r++) {
         if (b->n - o < 12 || vs_get32(b->p + o + 8) != 0) { ok = 0; break; }
         o += 12 + (size_t)vs_get16(b->p + o + 4) * vs_get16(b->p + o + 6) * BPP;
         if (o > b->n) ok = 0;
       }
-      if (ok) { b->rd = o; continue; }
-    }
-    break;
+      if (!ok) break;
+      b->rd = o;
+    } else if ((t == rfbResizeFrameBuffer && b->n - b->rd >= sz_rfbResizeFrameBufferMsg) ||
+               (t == rfbPalmVNCReSizeFrameBuffer && b->n - b->rd >= sz_rfbPalmVNCReSizeFrameBufferMsg)) {
+      size_t len = t == rfbResizeFrameBuffer ? sz_rfbResizeFrameBufferMsg : sz_rfbPalmVNCReSizeFrameBufferMsg;
+      for (i = 0; i < len; i++) printf("%02x", b->p[b->rd + i]);
+      b->rd += len;
+    } else break;
   }
   for (i = b->rd; i < b->n; i++) printf("%02x", b->p[i]);
   b->rd = b->n;
